@@ -21,7 +21,7 @@ var callActivityTypes = map[string]bool{
 }
 
 func c19(p *core.Prog, r *core.Report) {
-	r.Explain = "Decides: (R1) the complete decision table of the activity predicate over every message type value (extracted from its CFG): true exactly for call req/res, their continuations and error frames, false for ping, init, cancel and unknown types; the two activity timestamps are stored only under that predicate, only by the two update functions, which are called only from the reader and writer loops with the frame just read / about to be written; (R2) the sweep closes a connection only under IsActive(), !hasPendingCalls() and membership in the idle list, whose append is guarded by now - later(lastRead, lastWrite) >= maxIdleTime; hasPendingCalls covers inbound, outbound and relayed calls; (R3) the health loop closes only under consecutiveFailures >= FailuresToClose, the counter is reset to 0 on success and incremented by one on failure, and cancellation leaves without closing; (R4) nothing reachable from the health loop waits for the loop's own termination (goroutine self-join). hasPendingCalls answers 'none' only after consulting inbound, outbound and relayed calls; a failed ping leaves the health loop uncounted only on 'cancelled' or 'invalid connection state'. Connection options (health defaults included) are defaulted when the connection is created. The accessors the sweep consults return their own timestamp."
+	r.Explain = "Decides: (R1) the complete decision table of the activity predicate over every message type value (extracted from its CFG): true exactly for call req/res, their continuations and error frames, false for ping, init, cancel and unknown types; the two activity timestamps are stored only under that predicate, only by the two update functions, which are called only from the reader and writer loops with the frame just read / about to be written; (R2) the sweep closes a connection only under IsActive(), !hasPendingCalls() and membership in the idle list, whose append is guarded by now - later(lastRead, lastWrite) >= maxIdleTime; hasPendingCalls covers inbound, outbound and relayed calls; (R3) the health loop closes only under consecutiveFailures >= FailuresToClose, the counter is reset to 0 on success and incremented by one on failure, and cancellation leaves without closing; (R4) nothing reachable from the health loop waits for the loop's own termination (goroutine self-join). hasPendingCalls answers 'none' only after consulting inbound, outbound and relayed calls; a failed ping leaves the health loop uncounted only on 'cancelled' or 'invalid connection state'. Connection options (health defaults included) are defaulted when the connection is created. The accessors the sweep consults return their own timestamp. (R5) the relay pending count, input of the idle predicate, is balanced (shared with C09-R3); assuming HealthChecks.enabled() no return of callOnActive avoids starting the health-check goroutine."
 	r.NotDecided = "behaviour over concrete tick / traffic timelines; that a sweep runs at all; clock behaviour."
 	r.Rule("C19-R1", "E1 decision table + who-may-call", 12, "activity predicate table; timestamps written only under it from the reader/writer loops")
 	r.Rule("C19-R2", "E6 guards", 5, "idle sweep closes exactly under its predicate")
